@@ -1,5 +1,5 @@
 //! unit: u01p
-//! properties: C01 C05
+//! properties: C01 C05 C15
 //! note: convert_channel_err_internal (channelmanager.rs, whole function): of the errors a channel can answer a message with, only ChannelError::Close closes the channel - the close routine runs exactly once, with the error's own reason and text, and the channel is reported as to be dropped; every other error (Warn, WarnAndDisconnect, Ignore, Abort, SendError) is passed on unchanged, runs no close routine and keeps the channel
 //! note: MsgHandleErrInternal::from_chan_no_close (whole function): the action attached to an error that keeps the channel is the one its kind names (Warn: a warning is sent, the connection stays; WarnAndDisconnect: the connection is dropped with that warning; Ignore / Abort: nothing is said; Close / SendError: an error message), for this channel and with the error's own text
 //! trusted: R15 (deep slice): ChannelManager::handle_error: the if/else that chooses the message event queued for the peer, verbatim as a function of the internal error
